@@ -963,6 +963,8 @@ class Engine:
         if isinstance(a, (PObj, DictVal, Ver)) and isinstance(b, (PObj, DictVal, Ver)):
             va, vb = self.store_of(a), self.store_of(b)
             return z3.And(va.dom == vb.dom, va.val == vb.val)
+        if isinstance(a, SetVal) and isinstance(b, SetVal):
+            return a.mem == b.mem
         raise Unsupported("== between %s and %s" % (type(a).__name__, type(b).__name__))
 
     def same_class(self, a, b):
